@@ -151,8 +151,6 @@ class Inliner:
 
     # ------------------------------------------------------------------
     def run(self):
-        if not self.new:
-            return
         for _ in range(3):
             changed = False
             for rel, tree in self.trees.items():
@@ -205,14 +203,26 @@ class Inliner:
                 recv = r
             elif name in self.new and self.new[name][2] is not None and r == self.new[name][2].name:
                 recv = r
+            elif cls is not None and r[:1].isupper() and r != cls.name and call.args and isinstance(call.args[0], ast.Name) and call.args[0].id == 'self':
+                recv = 'self'       # explicit delegation, decided below
             else:
                 return None
         elif isinstance(f, ast.Name):
             name = f.id
             recv = ''
-        if name not in self.new:
+        explicit = None
+        if isinstance(f, ast.Attribute) and isinstance(f.value, ast.Name) and cls is not None and f.value.id != cls.name and call.args and \
+                isinstance(call.args[0], ast.Name) and call.args[0].id == 'self':
+            # `OtherClass.method(self, ..)`: the body of that very function runs on this object (explicit delegation to a sibling's implementation);
+            # inlined whether the rule set knows the function or not -- at this call site it is a helper
+            cands = [d_ for d_ in self.defs.get(name, []) if d_[2] is not None and d_[2].name == f.value.id and not d_[3].decorator_list]
+            if len(cands) == 1:
+                explicit = cands[0]
+                recv = 'self'
+        if explicit is None and name not in self.new:
             return None
-        d = self.new[name]
+        d = explicit if explicit is not None else self.new[name]
+        call._explicit_self = explicit is not None      # type: ignore[attr-defined]
         hrel, hq, hcls, hnode = d
         decs = [ast.unparse(x) for x in hnode.decorator_list]
         if any(x not in ('staticmethod', 'classmethod') for x in decs):
@@ -320,6 +330,23 @@ class Inliner:
                 if e is not None:
                     changed[0] = True
                     return ast.copy_location(e, n)
+                return n
+
+            def visit_Attribute(self, n: ast.Attribute):
+                # `self.<p>` where <p> is a NEW read-only property whose body is a single `return <expr>`: an abbreviation of that expression
+                self.generic_visit(n)
+                if isinstance(n.ctx, ast.Load) and isinstance(n.value, ast.Name) and n.value.id == 'self' and n.attr in inl.new and cls is not None:
+                    hrel, hq, hcls, hnode = inl.new[n.attr]
+                    if hcls is not None and (hcls is cls or hcls.name in [ast.unparse(b_) for b_ in cls.bases]) and [ast.unparse(d_) for d_ in hnode.decorator_list] == ['property'] \
+                            and hnode is not fn and not isinstance(hnode, ast.AsyncFunctionDef):
+                        body = [s_ for s_ in hnode.body if not (isinstance(s_, ast.Expr) and isinstance(s_.value, ast.Constant))]
+                        ps = [a_.arg for a_ in hnode.args.args]
+                        if len(body) == 1 and isinstance(body[0], ast.Return) and body[0].value is not None and len(ps) == 1 and \
+                                not any(isinstance(x_, (ast.Lambda, ast.Yield, ast.YieldFrom, ast.Await, ast.NamedExpr)) for x_ in ast.walk(body[0].value)):
+                            e = _Subst({ps[0]: ast.Name('self', ast.Load())}, {}).visit(copy.deepcopy(body[0].value))
+                            inl._count(hnode)
+                            changed[0] = True
+                            return ast.copy_location(e, n)
                 return n
         T().visit(fn)
         if changed[0]:
@@ -463,9 +490,10 @@ class Inliner:
             if 'classmethod' not in decs and recv != 'self':
                 return None
         args: dict[str, ast.AST] = {}
-        for p, a in zip(params, call.args):
+        call_args = call.args[1:] if getattr(call, '_explicit_self', False) else call.args
+        for p, a in zip(params, call_args):
             args[p] = a
-        if len(call.args) > len(params):
+        if len(call_args) > len(params):
             return None
         for kw_ in call.keywords:
             if kw_.arg in args or kw_.arg not in params + kwonly:
@@ -519,6 +547,7 @@ class Inliner:
         sub = _Subst(mapping, rename)
         body = [sub.visit(s) for s in body]
         body = [x for s in body for x in (s if isinstance(s, list) else [s])]
+        body = _fold_constant_ifs(body)
         rets = _returns_outside_nested(body)
         whole = awaited_node if awaited_node is not None else call
         # ---- return position: splice the body as it is
@@ -718,6 +747,23 @@ class Inliner:
 
     def _count(self, hnode):
         self.inlined[hnode.name] = self.inlined.get(hnode.name, 0) + 1
+
+
+def _fold_constant_ifs(stmts: list) -> list:
+    """`if True: A else: B` -> A;  `if False: A else: B` -> B  (a literal argument substituted for the helper's parameter decides the branch)"""
+    out = []
+    for s_ in stmts:
+        for fld in ('body', 'orelse', 'finalbody'):
+            sub = getattr(s_, fld, None)
+            if isinstance(sub, list) and sub and isinstance(sub[0], ast.stmt) and not isinstance(s_, FUNC + (ast.ClassDef,)):
+                setattr(s_, fld, _fold_constant_ifs(sub) or ([ast.Pass()] if fld == 'body' else []))
+        for h_ in getattr(s_, 'handlers', []) or []:
+            h_.body = _fold_constant_ifs(h_.body) or [ast.Pass()]
+        if isinstance(s_, ast.If) and isinstance(s_.test, ast.Constant) and isinstance(s_.test.value, (bool, type(None))):
+            out.extend(s_.body if s_.test.value else s_.orelse)
+        else:
+            out.append(s_)
+    return out
 
 
 def _replace(root: ast.AST, old: ast.AST, new: ast.AST):
